@@ -367,7 +367,9 @@ def run_replay(modname, path, quiet=False):
     mod = importlib.import_module(modname)
     with open(path) as f:
         body = json.load(f)
-    msgs = mod.replay(body['case'])
+    case = dict(body['case'])
+    case.setdefault('seed', body.get('seed', 0))
+    msgs = mod.replay(case)
     if msgs:
         if not quiet:
             print(f"[{mod.PROPERTY_ID}] replay reproduces the violation:")
